@@ -1,4 +1,4 @@
 From Coq Require Extraction ExtrOcamlBasic.
-From GV Require Import Readers.Pir.
+From GV Require Import Readers.Pir Readers.OperExpr.
 Extraction Blacklist String List Nat.
-Extraction "readers.ml" read_pir_or_fasta.
+Extraction "readers.ml" read_pir_or_fasta parse_operation_expr count print_int.
